@@ -235,3 +235,24 @@ Fixpoint total_for (a : acct) (ps : list post) : Z :=
   | [] => 0
   | p :: r => (if acct_eqb a (p_acct p) then p_secs p else 0) + total_for a r
   end.
+
+(* ------------------------------------------------------------------ reported time: display scaling *)
+(* amount_t::in_place_unreduce (amount.cc:727-757), applied by report_t::display_value to every
+   amount and total a report shows unless --base is given.  A time-clock posting is in seconds (`s`);
+   `chain` lists the ever larger units above the amount's own, each with the factor
+   comm->larger()->number() that leads to it from the unit before: built in are m = 60 s and h = 60 m
+   (session.cc:49-50), a journal extends the chain with `C 1.00d = 24h` and the like
+   (amount_t::parse_conversion).  The walk divides by the factor of the NEXT unit of the chain - the
+   cursor's, which Gen/UnreduceWalk.v re-reads from the source - and stops before the first unit in
+   which the quantity would be below 1 in absolute value.  The result is exact (amount division is
+   rational division); only the printing rounds it, to the display precision of the unit reached
+   (Base/Round.v print_scaled).  commodity_t::time_colon_by_default is off and not modelled. *)
+Definition at_least_one (q : Q) : bool := Qle_bool 1 q || Qle_bool q (-1).
+
+Fixpoint unreduce_walk (chain : list (str * Q)) (lab : str) (q : Q) : str * Q :=
+  match chain with
+  | [] => (lab, q)
+  | (l, f) :: r =>
+      let nq := Qred (q / f) in
+      if at_least_one nq then unreduce_walk r l nq else (lab, q)
+  end.
